@@ -38,13 +38,16 @@ class CallTimeout(Exception):
 class time_limit:
     """with time_limit(seconds): ...   raises CallTimeout inside the block when it runs longer (main thread, SIGALRM)."""
 
+    expired = 0      # calls that did not return so far in this process: the generous first limit (JIT compilation under load) is not granted again
+
     def __init__(self, seconds):
-        self.seconds = seconds
+        self.seconds = seconds if time_limit.expired == 0 else min(seconds, 10 if time_limit.expired < 4 else 2)
 
     def __enter__(self):
         import signal
 
         def on_alarm(signum, frame):
+            time_limit.expired += 1
             raise CallTimeout("no result within %d s" % self.seconds)
 
         self.old = signal.signal(signal.SIGALRM, on_alarm)
